@@ -28,6 +28,7 @@ import (
 	"github.com/veesix-networks/osvbng/pkg/config/subscriber"
 	conf "github.com/veesix-networks/osvbng/pkg/handlers/conf"
 	"github.com/veesix-networks/osvbng/pkg/handlers/conf/paths"
+	pathspkg "github.com/veesix-networks/osvbng/pkg/paths"
 	"gopkg.in/yaml.v3"
 )
 
@@ -78,6 +79,15 @@ func c13Val(v interface{}) string {
 			return "b1"
 		}
 		return "b0"
+	case []string:
+		if len(x) == 0 {
+			return "l-"
+		}
+		var hs []string
+		for _, e := range x {
+			hs = append(hs, hex.EncodeToString([]byte(e)))
+		}
+		return "l" + strings.Join(hs, ":")
 	}
 	return "?"
 }
@@ -158,7 +168,11 @@ func c13Walk(prefix string, v reflect.Value, out map[string]bool) {
 		}
 		for _, k := range v.MapKeys() {
 			e := v.MapIndex(k)
-			p := prefix + "." + fmt.Sprint(k.Interface())
+			key := fmt.Sprint(k.Interface())
+			if enc, err := pathspkg.EncodeIP(key); err == nil {
+				key = enc // <*:ip> wildcards: the path carries the key hex-encoded
+			}
+			p := prefix + "." + key
 			u := e
 			for u.Kind() == reflect.Interface || u.Kind() == reflect.Ptr {
 				if u.IsNil() {
@@ -172,6 +186,16 @@ func c13Walk(prefix string, v reflect.Value, out map[string]bool) {
 			c13Walk(p, e, out)
 		}
 	case reflect.Slice, reflect.Array:
+		if v.Type().Elem().Kind() == reflect.String {
+			if v.Len() > 0 {
+				var hs []string
+				for i := 0; i < v.Len(); i++ {
+					hs = append(hs, hex.EncodeToString([]byte(v.Index(i).String())))
+				}
+				out[prefix+"=l"+strings.Join(hs, ":")] = true
+			}
+			return
+		}
 		for i := 0; i < v.Len(); i++ {
 			p := prefix + "." + strconv.Itoa(i)
 			u := v.Index(i)
@@ -305,6 +329,19 @@ func c13ParseVal(tok string) (interface{}, bool) {
 		return string(b), err == nil
 	case 'b':
 		return tok == "b1", tok == "b1" || tok == "b0"
+	case 'l':
+		l := []string{}
+		if tok == "l-" {
+			return l, true
+		}
+		for _, h := range strings.Split(tok[1:], ":") {
+			b, err := hex.DecodeString(h)
+			if err != nil {
+				return nil, false
+			}
+			l = append(l, string(b))
+		}
+		return l, true
 	}
 	return nil, false
 }
@@ -444,7 +481,7 @@ func c13RunCase(line string, root string, idx int, templates string) (res string
 	os.MkdirAll(filepath.Join(templates, "frr"), 0755)
 	os.WriteFile(filepath.Join(templates, "frr", "none.tmpl"), []byte("{{define \"none\"}}{{end}}"), 0644)
 	os.WriteFile(filepath.Join(templates, "frr.conf.tmpl"), []byte(
-		"{{with .Protocols.BGP}}bgp {{printf \"%+v\" .}}\n{{end}}{{with .Protocols.OSPF}}ospf {{printf \"%+v\" .}}\n{{end}}"+
+		"{{with .Protocols.BGP}}bgp {{.ASN}} {{printf \"%q\" .RouterID}}{{range $k, $v := .Neighbors}} n:{{$k}}:{{printf \"%q %q %d %v\" $v.Description $v.Peer $v.RemoteAS $v.BFD}}{{end}}\n{{end}}{{with .Protocols.OSPF}}ospf {{printf \"%+v\" .}}\n{{end}}"+
 			"{{with .Protocols.OSPF6}}ospf6 {{printf \"%+v\" .}}\n{{end}}{{with .Protocols.ISIS}}isis {{printf \"%+v\" .}}\n{{end}}"+
 			"{{with .Protocols.Static}}static {{printf \"%+v\" .}}\n{{end}}{{with .Protocols.MPLS}}mpls {{printf \"%+v\" .}}\n{{end}}"+
 			"{{with .Protocols.LDP}}ldp {{printf \"%+v\" .}}\n{{end}}"), 0644)
